@@ -200,10 +200,41 @@ Proof.
   intros Hne Hr. unfold denote. rewrite join_parts_rooted by assumption. f_equal. apply join_parts_walk. exact Hne.
 Qed.
 
-Theorem clean_dot_denotes cwd p : root_only p = false -> denote cwd (clean_dot p) = denote cwd p.
+(* what CleanDot and CleanPath do with the parts: a spelling of the root is written "/" *)
+Lemma match_not_root {A} (ps : list str) (a : A) (f : list str -> A) :
+  ps <> [[]] -> match ps with [[]] => a | ps' => f ps' end = f ps.
+Proof. destruct ps as [|[|c x] [|y t]]; intro H; try reflexivity. contradiction. Qed.
+
+Lemma parts_root_only p : p <> [] -> (parts p = [[]] <-> root_only p = true).
 Proof.
-  intro Hr. unfold clean_dot. destruct (negb (existsb (N.eqb dot) p) && negb (has_double_slash p)); [reflexivity|].
-  destruct p as [|c s] eqn:E; [reflexivity|]. rewrite <- E in *. apply join_parts_denotes; [subst; discriminate|exact Hr].
+  intro Hne. rewrite components_root_only, parts_components by exact Hne.
+  destruct (components p) as [|x t]; split; intro H; try discriminate; exact H.
+Qed.
+
+Lemma root_only_denote cwd p : root_only p = true -> denote cwd p = [].
+Proof.
+  intro H. pose proof H as Hc. apply components_root_only in Hc.
+  unfold root_only in H. apply andb_true_iff in H as [Hr _].
+  unfold denote. rewrite Hr, <- walk_components, Hc. reflexivity.
+Qed.
+
+Lemma parts_text_denotes cwd p :
+  p <> [] ->
+  denote cwd (match parts p with [[]] => [slash] | ps => join_slash ps end) = denote cwd p.
+Proof.
+  intro Hne. destruct (root_only p) eqn:Hr.
+  - pose proof (proj2 (parts_root_only p Hne) Hr) as Hp. rewrite Hp.
+    rewrite (root_only_denote cwd p Hr). reflexivity.
+  - assert (Hp : parts p <> [[]]) by (intro Hp; apply (parts_root_only p Hne) in Hp; congruence).
+    replace (match parts p with [[]] => [slash] | ps => join_slash ps end) with (join_slash (parts p)).
+    + apply join_parts_denotes; assumption.
+    + destruct (parts p) as [|[|c x] [|y t]]; try reflexivity. contradiction.
+Qed.
+
+Theorem clean_dot_denotes cwd p : denote cwd (clean_dot p) = denote cwd p.
+Proof.
+  unfold clean_dot. destruct (negb (existsb (N.eqb dot) p) && negb (has_double_slash p)); [reflexivity|].
+  destruct p as [|c s] eqn:E; [reflexivity|]. rewrite <- E. apply parts_text_denotes. subst; discriminate.
 Qed.
 
 (* ---------- CleanPath ---------- *)
@@ -278,12 +309,17 @@ Proof.
   intros Hall. eapply H; [apply Nat.le_refl|exact Hall].
 Qed.
 
-Theorem clean_path_denotes cwd p : root_only p = false -> denote cwd (clean_path p) = denote cwd p.
+Theorem clean_path_denotes cwd p : denote cwd (clean_path p) = denote cwd p.
 Proof.
-  intro Hr. destruct p as [|c0 s0] eqn:Ep; [reflexivity|]. rewrite <- Ep in *.
+  destruct p as [|c0 s0] eqn:Ep; [reflexivity|]. rewrite <- Ep in *.
   assert (Hne : p <> []) by (subst; discriminate).
-  unfold clean_path.
+  destruct (root_only p) eqn:Hr.
+  { (* a spelling of the root: Parts = [""], the result is "/" *)
+    unfold clean_path. rewrite (proj2 (parts_root_only p Hne) Hr). simpl.
+    rewrite (root_only_denote cwd p Hr). reflexivity. }
+  unfold clean_path. cbv zeta.
   pose proof (parts_nonempty p Hne) as Hpn. pose proof (parts_noslash p) as Hps.
+  assert (Hnr : parts p <> [[]]) by (intro H; apply (parts_root_only p Hne) in H; congruence).
   set (ps := parts p) in *.
   assert (Hskip : Forall (fun c => seg_is_name c = true) (skipn 2 ps)).
   { destruct (components p) as [|x t] eqn:Ec.
@@ -303,21 +339,27 @@ Proof.
       rewrite <- (firstn_skipn 2 ps). apply in_or_app. left. exact Hy.
     - apply clean_path_loop_noslash. apply Forall_forall. intros y Hy. eapply Forall_forall in Hps; [exact Hps|].
       rewrite <- (firstn_skipn 2 ps). apply in_or_app. right. exact Hy. }
-  rewrite El. rewrite <- El.
-  unfold denote.
-  assert (Hroot : rooted (join_slash l) = rooted p).
-  { rewrite El. rewrite El in Hln. inversion Hln; subst x0 l0. rewrite rooted_join by assumption.
-    (* the head of the parts decides *)
-    subst ps. rewrite parts_components in Hhd, Htl by exact Hne.
-    unfold root_only in Hr. unfold components in Hhd, Htl. fold (names p) in Hhd, Htl.
-    destruct (rooted p) eqn:R; simpl in Hhd, Htl, Hr.
-    - subst x. simpl. destruct t; [|reflexivity]. specialize (Htl eq_refl).
-      destruct (names p); [discriminate|discriminate].
-    - destruct (names p) as [|y r] eqn:En; simpl in Hhd.
-      + subst x. reflexivity.
-      + subst x. assert (In y (names p)) by (rewrite En; left; reflexivity).
-        unfold names in H. apply filter_In in H as [_ H]. destruct y; [discriminate|reflexivity]. }
-  rewrite Hroot. f_equal.
-  rewrite (segs_split (join_slash l)), split_join; [|rewrite El; discriminate|exact Hln].
-  subst l. rewrite firstn_skipn_loop_walk by exact Hskip. subst ps. apply walk_parts.
+  assert (Hlr : l <> [[]]).
+  { rewrite El. intro E. injection E as -> ->. specialize (Htl eq_refl).
+    apply Hnr. destruct ps as [|y r]; [contradiction|]. simpl in Hhd, Htl. subst. reflexivity. }
+  assert (Hwalk : forall st, walk st l = walk st ps).
+  { intro st. subst l. apply firstn_skipn_loop_walk. exact Hskip. }
+  clearbody l.
+  destruct l as [|[|c1 x1] [|y1 t1]]; [discriminate El|contradiction| | |];
+    cbv beta iota; rewrite El in *; clear El.
+  all: unfold denote.
+  all: assert (Hroot : rooted (join_slash (x :: t)) = rooted p);
+    [ pose proof (proj1 (Forall_cons_iff _ _ _) Hln) as [Hx0 _]; rewrite rooted_join by assumption;
+      subst ps; rewrite parts_components in Hhd, Htl by exact Hne;
+      unfold root_only in Hr; unfold components in Hhd, Htl; fold (names p) in Hhd, Htl;
+      destruct (rooted p) eqn:R; simpl in Hhd, Htl, Hr;
+      [ subst x; simpl; destruct t; [|reflexivity]; specialize (Htl eq_refl);
+        destruct (names p); discriminate
+      | destruct (names p) as [|y r] eqn:En; simpl in Hhd;
+        [ subst x; reflexivity
+        | subst x; assert (Hy : In y (names p)) by (rewrite En; left; reflexivity);
+          unfold names in Hy; apply filter_In in Hy as [_ Hy]; destruct y; [discriminate|reflexivity] ] ]
+    | rewrite Hroot; f_equal;
+      rewrite (segs_split (join_slash (x :: t))), split_join; [|discriminate|exact Hln];
+      rewrite Hwalk; subst ps; apply walk_parts ].
 Qed.
